@@ -209,6 +209,7 @@ func runC13(c *Ctx) {
 	runC13OmitEmpty(c)
 	runC13NotifyClone(c)
 	runC13Hooks(c)
+	runC13Alias(c)
 }
 
 // ---------- R3 validation walk ----------
